@@ -152,6 +152,10 @@ func (c *Config) Unpack(to interface{}, options ...Option) error {
 	if !isValid {
 		return raisePointerRequired(vTo)
 	}
+	if k == reflect.Ptr && vTo.IsNil() {
+		// a typed nil pointer cannot be written through
+		return raiseNil(ErrNilValue)
+	}
 
 	return reifyInto(opts, vTo, c)
 }
